@@ -12,7 +12,7 @@ NAMES = ['ref', 'calc', 'run_2', 'T4 v11', 'a.b-c']
 
 
 def datasets(rng, shape, nds, fail, nan=False, plain_dims=False,
-             decreasing=False):
+             decreasing=False, infinite=False):
     '''A reference and `nds` datasets of the given shape; `fail` chooses the
     failing pattern per dataset: 'none', 'one', 'first', 'last', 'all',
     'random'.  Values are unique 5-digit numbers so that a table cell
@@ -40,6 +40,9 @@ def datasets(rng, shape, nds, fail, nan=False, plain_dims=False,
             if len(bins[name]) >= 3 and rng.random() < 0.6:
                 bins[name] = bins[name][::-1].copy()
     base = (np.arange(size, dtype=float) * 1.25 + 1.5).reshape(shape)
+    if infinite and size > 1:
+        # an infinite value, the same in every dataset (inf == inf)
+        base.reshape(-1)[rng.randrange(size)] = rng.choice([np.inf, -np.inf])
     err = np.full(shape, 0.125)
     if not shape:
         base, err = np.float64(base), np.float64(err)
@@ -206,8 +209,10 @@ def gen_result(rng, kind=None, shape=None, plot_safe=False, exotic=False):
         nan = kind in ('equal', 'approx', 'student', 'bonferroni',
                        'holm') and rng.random() < 0.15
         decreasing = exotic and rng.random() < 0.15
+        infinite = exotic and rng.random() < 0.1
         ref, dss, masks = datasets(rng, shape, nds, fail, nan=nan,
-                                   decreasing=decreasing)
+                                   decreasing=decreasing, infinite=infinite)
+        out['infinite_values'] = infinite
         out['masks'] = masks
         out['nan'] = nan
         out['decreasing_bins'] = decreasing
@@ -263,6 +268,8 @@ def gen_result(rng, kind=None, shape=None, plot_safe=False, exotic=False):
         else:
             nlab = rng.randint(1, 3)
             by_labels = tuple(rng.sample(['x', 'y', 'z'], nlab))
+            if exotic and rng.random() < 0.5:
+                by_labels = list(by_labels)     # a list is accepted too
             out['by_labels'] = by_labels
             try:
                 res = vst.TestStatsTestsByLabels(
